@@ -46,11 +46,15 @@ def scenario_stopped_waiter(tp):
     that never holds: a later signal on the first Condition must not wake
     it again."""
     d = tp.choice([0.25, 0.5, 1])
+    # (which of the two waiters comes first in the waiting list: a waiter
+    # behind the one whose clock is stopped is signalled all the same)
+    order = [1, 2] if tp.draw(2) else [2, 1]
     prog = {'t0': rprog.T0, 'clocks': [{'tempo': tp.choice([1, 2]),
                                         'beats': 0}],
             'routines': [
                 {'clock': 'sys', 'quant': None, 'seed': None,
-                 'body': [['spawn', 1], ['wait', 1 / 64], ['spawn', 2]]},
+                 'body': [['spawn', order[0]], ['wait', 1 / 64],
+                          ['spawn', order[1]]]},
                 {'clock': 'sys', 'quant': None, 'seed': None,
                  'body': [['rec'], ['cwait', 0], ['rec'], ['wait', d],
                           ['rec'], ['cwait', 1], ['rec']]},
@@ -622,15 +626,16 @@ def check_sync(case, res, viol, stats):
     prog0 = case['prog']
 
     def release(lst, how):
-        # signal()/unhang() reschedule the waiters in order; one that sits
-        # on a stopped TempoClock makes the call raise there: the ones
-        # before it are released, what happens to the rest is unspecified
+        # signal()/unhang() reschedule the waiters; one that sits on a
+        # stopped TempoClock cannot be rescheduled (the call raises
+        # ClockNotRunning): the others waited on a condition that holds and
+        # was signalled, they resume all the same
         for r in lst:
             if isinstance(r, int) and \
                     prog0['routines'][r]['clock'] in stopped:
                 stats['waiter-on-stopped-clock'] = stats.get(
                     'waiter-on-stopped-clock', 0) + 1
-                return
+                continue
             released[r] = released.get(r, 0) + 1
             stats[how] = stats.get(how, 0) + 1
 
